@@ -175,6 +175,25 @@ def generate(ctx):
         docs.append(t)
         ctx.add('parse_value %s' % gen.hexarg(t), meta=('doc', t, tg.used_relax))
         ctx.count('docs', 'relaxed' if tg.used_relax else 'rfc')
+    # integers just beyond the 64-bit ranges, systematically: every leading digit and 20..24 digits (an accumulator that wraps
+    # silently depends on the 19-digit prefix), the neighbours of 2^64 and -2^63, then a random sample; each must be read as the
+    # nearest double (decided by the model diff and, with exact integers, by the Python judge)
+    big = []
+    for nd in (20, 21, 22, 24, 30, 40):
+        for d in range(1, 10):
+            big.append(str(d) + '0' * (nd - 1))
+            big.append(str(d) + '9' * (nd - 1))
+            big.append(str(d) + ''.join(r.choice('0123456789') for _ in range(nd - 1)))
+    big += [str((1 << 64) + k) for k in (-2, -1, 0, 1, 2, 1 << 10, 1 << 32)] + [str(k * (1 << 64) + j) for k in (2, 3, 5, 10, 16) for j in (0, 1, 12345)]
+    big += [str(r.randrange(1 << 64, 1 << 70)) for _ in range(60)]
+    for t in big + ['-' + x for x in big] + ['-' + str((1 << 63) + k) for k in (-1, 0, 1, 2, 1 << 20)]:
+        t = t.encode()
+        docs.append(t)
+        ctx.add('parse_value %s' % gen.hexarg(t), meta=('doc', t, False))
+        if r.random() < 0.3:
+            t2 = b'[' + t + b',{"k":' + t + b'}]'
+            docs.append(t2)
+            ctx.add('parse_value %s' % gen.hexarg(t2), meta=('doc', t2, False))
     # classic hard numbers
     for t in [b'0.1', b'1e23', b'5e-324', b'3e-324', b'2e-324', b'2.2250738585072011e-308', b'1.7976931348623157e308', b'1.7976931348623159e308',
               b'9007199254740993', b'9007199254740993.0', b'7.91252914157506e-14', b'8.675514674482229e-196', b'1e400', b'-1e400', b'1e-400', b'-0', b'-0.0', b'0e0',
